@@ -599,7 +599,12 @@ def apply_edit(font, name, a):
                     c.x, c.y = (k % 90) - 30, (k % 50) - 10
                     c.flags = 0x4
                     g.components = [c]
+                    # (the rebuilt glyph has another point count: its old variation data goes; gvar is decoded
+                    # first, against the outlines its data was made for)
+                    gv = font["gvar"] if "gvar" in font else None
                     glyf[go[ai]] = g
+                    if gv is not None:
+                        gv.variations[go[ai]] = []
                     base.coordinates.translate((41 + k % 60, 13 + k % 9))
                     break
         return font
